@@ -2,5 +2,5 @@ SPECIFICATION Spec
 CONSTANTS MaxEdit = 2  MaxInv = 3  GenDepth = 0
 CONSTANT Weak = {"InputsIgnoreFingerprint"}
 VIEW view
-INVARIANT CexPrint
+CONSTRAINT CexPrint
 CHECK_DEADLOCK FALSE
